@@ -119,6 +119,8 @@ def call_closure(ex, ctx, st, clos, args):
             # foreign function item: route through the contract models
             fake = {'def': cval[4], 'resolved': key, 'name': key.split('::')[-1], 'targs': []}
             return apply(ex, ctx, st, fake, list(args), None, {'line': None, 'dest': {'local': 0, 'proj': [1]}})
+        if key in ex.opaque:
+            return ex.opaque_call(st, key, list(args)), st
         return ex.call_fn(st, key, list(args), sty, ctx['depth'] + 1)
     if cval[0] != 'agg' or cval[1][0] != 'closure':
         raise Uncertified("closure call on %s" % (cval[0],))
